@@ -122,9 +122,28 @@ pub fn scenario_a(idx: usize, seed: u64) -> ScenarioResult {
         kp.insert(PeerInfo { peer_id: world::peer_id_of_key(&w.gen_key()), affinity: PeerAffinity::High, address: vec![] });
         let inserted_at = w.now();
 
+        // connections the application dials itself also count as "being established": with a small
+        // maximum an explicit dial to a silent address occupies a slot for the connect timeout
+        let explicit_dead = bh_addr(idx, 950);
+        let explicit = cap < 100 && rng.gen_bool(0.6);
+        let explicit_task = if explicit {
+            let net = n.net.clone();
+            let mut r2 = StdRng::seed_from_u64(seed ^ 0xe);
+            Some(tokio::spawn(async move {
+                loop {
+                    tokio::time::sleep(Duration::from_millis(r2.gen_range(0..3 * ct_ms))).await;
+                    let _ = net.connect(explicit_dead).await;
+                }
+            }))
+        } else {
+            None
+        };
         let span_s: u64 = rng.gen_range(120..1_800);
         tokio::time::sleep(Duration::from_secs(span_s)).await;
         let end = w.now();
+        if let Some(t) = explicit_task {
+            t.abort();
+        }
 
         let tap = w.fabric.take_tap();
         let mut seen = HashMap::new();
@@ -137,7 +156,9 @@ pub fn scenario_a(idx: usize, seed: u64) -> ScenarioResult {
         let mut problems: Vec<String> = Vec::new();
         let mut per_peer: BTreeMap<usize, Vec<Attempt>> = BTreeMap::new();
         for a in &attempts {
-            if let Some(why) = forbidden.get(&a.dst) {
+            if a.dst == explicit_dead {
+                continue; // the application's own dial
+            } else if let Some(why) = forbidden.get(&a.dst) {
                 problems.push(format!("background dial to {} ({})", a.dst, why));
             } else if let Some(h) = addr_owner.get(&a.dst) {
                 per_peer.entry(*h).or_default().push(a.clone());
@@ -217,8 +238,25 @@ pub fn scenario_a(idx: usize, seed: u64) -> ScenarioResult {
             let infl = attempts[..=i].iter().filter(|x| x.t + win > a.t).count();
             max_inflight = max_inflight.max(infl);
         }
-        if max_inflight > cap {
+        if max_inflight > cap && !explicit {
             problems.push(format!("{max_inflight} background dials in flight at once, configured maximum is {cap}"));
+        }
+        // no background dial may START while the number of connections being established (explicit
+        // dials included) is at the maximum
+        let mut explicit_blocked_checks = 0u64;
+        for (i, a) in attempts.iter().enumerate() {
+            if a.dst == explicit_dead {
+                continue;
+            }
+            let others = attempts[..i].iter().filter(|x| x.t + win > a.t && x.t < a.t).count();
+            explicit_blocked_checks += 1;
+            if others >= cap {
+                problems.push(format!(
+                    "a background dial to {} started at t={} us while {others} connections were already being established (maximum {cap}; explicit dials count)",
+                    a.dst, a.t
+                ));
+                break;
+            }
         }
         let sample = json!({
             "class": "all-unreachable", "scenario": idx, "seed": seed,
@@ -247,6 +285,8 @@ pub fn scenario_a(idx: usize, seed: u64) -> ScenarioResult {
             .count("rotation_checks", rotation_checked)
             .count("virtual_seconds", span_s)
             .count("cap_limited_scenarios", (cap < 100) as u64)
+            .count("cap_with_explicit_dials_scenarios", explicit as u64)
+            .count("cap_start_checks", explicit_blocked_checks)
     })
 }
 
@@ -492,7 +532,7 @@ pub fn run(ctx: &Ctx) -> i32 {
         property: "C13",
         tier,
         seed: ctx.seed,
-        scenarios: tier.pick(8_000, 200_000),
+        scenarios: tier.pick(6_000, 200_000),
         threads: super::threads(),
         watchdog: Duration::from_secs(180),
         budget: Duration::from_secs(tier.pick(90, 900)),
@@ -519,6 +559,6 @@ pub fn run(ctx: &Ctx) -> i32 {
         extra: Default::default(),
         exhaustive: None,
         min_signatures: 10,
-        required_counters: vec!["dial_attempts_observed", "spacing_checks", "rotation_checks", "bounded_success_checks", "persistence_checks", "recovery_after_failures_checks", "rotation_restart_checks", "cap_limited_scenarios"],
+        required_counters: vec!["dial_attempts_observed", "spacing_checks", "rotation_checks", "bounded_success_checks", "persistence_checks", "recovery_after_failures_checks", "rotation_restart_checks", "cap_limited_scenarios", "cap_with_explicit_dials_scenarios"],
     })
 }
